@@ -9,6 +9,7 @@
 -/
 import Cobweb.Proofs.Kill
 import Cobweb.Proofs.Watch
+import Cobweb.Proofs.Removed
 import Cobweb.Theorems.C01
 import Cobweb.Exec
 
@@ -178,6 +179,47 @@ theorem queued_despawn_reaction_dead {p : Prog} {hh : Hist} {s : St} (hr : Reach
 theorem tracker_on_live {p : Prog} {hh : Hist} {s : St} (hr : Reach p hh ({} : St) s) (e : Nat) (h : s.dspTracker e = true) :
     s.alive e = true := (watch_reach p hh hr).core.trkAlive e h
 
+/-! ### whole frames: Bevy keeps an unread removal event through one `clear_trackers` and drops it at the second -/
+
+/-- What a `clear_trackers` throws away unread: the buffered events that were already old. -/
+def lostBy (s : St) (ty : Nat) : List Nat := (s.removedBuf ty).take (s.removedOld ty)
+
+/-- `clear_trackers` splits every buffer into what is lost and what stays (now old); nothing else changes. -/
+theorem clear_splits (s : St) (ty : Nat) :
+    s.removedBuf ty = lostBy s ty ++ (clearTrackers s).removedBuf ty ∧
+    (clearTrackers s).removedOld ty = ((clearTrackers s).removedBuf ty).length := by
+  simp [lostBy, clearTrackers]
+
+/-- With nothing old, `clear_trackers` loses nothing. -/
+theorem clear_keeps_fresh (s : St) (ty : Nat) (h : s.removedOld ty = 0) :
+    lostBy s ty = [] ∧ (clearTrackers s).removedBuf ty = s.removedBuf ty := by
+  simp [lostBy, clearTrackers, h]
+
+/-- The poll reads the whole buffer of every tracked type (old and new events alike) and leaves the others alone. -/
+theorem poll_reads_tracked (s : St) (ty : Nat) (h : ty ∈ s.tracked) :
+    (pollRemovals s).1.removedBuf ty = [] ∧ (pollRemovals s).1.removedOld ty = 0 := by
+  simp [pollRemovals_buf, pollRemovals_old, h]
+
+theorem poll_skips_untracked (s : St) (ty : Nat) (h : ty ∉ s.tracked) :
+    (pollRemovals s).1.removedBuf ty = s.removedBuf ty ∧ (pollRemovals s).1.removedOld ty = s.removedOld ty := by
+  simp [pollRemovals_buf, pollRemovals_old, h]
+
+/-- **A frame that polls loses no removal of a tracked type.** From the poll of a type that is tracked, through whatever
+    the reactions it schedules and any later operations do (removals, registrations, further polls), up to the next
+    `clear_trackers`: that `clear_trackers` drops no unread event of the type. So with the `Last` schedule polling once per
+    `App::update`, every removal of a component with a removal reactor registered by then is read by a poll before Bevy
+    can drop it. -/
+theorem frame_loses_nothing {p : Prog} {hh : Hist} {s0 s : St} (ty : Nat) (htr : ty ∈ s0.tracked)
+    (hseg : Seg p hh (doPoll s0) s) : lostBy s ty = [] := by
+  have h0 : (doPoll s0).removedOld ty = 0 := by rw [doPoll_old]; simp [htr]
+  have := seg_old_le hseg ty
+  exact (clear_keeps_fresh s ty (by omega)).1
+
+/-- **Only `clear_trackers` ages removal events**: any other tick leaves the number of old events of a type unchanged or
+    (a poll) resets it. -/
+theorem only_clear_ages (p : Prog) (hh : Hist) {s s' : St} (ht : tick p hh s = some s') (hn : NotClear p hh s) (ty : Nat) :
+    s'.removedOld ty ≤ s.removedOld ty := tick_old_le p hh ht hn ty
+
 /-- Non-vacuity: one despawn reactor on a spawned entity, the entity is despawned by a plain command in a later operation
     (its death then waits on the channel), the end of the frame polls: the reaction runs once and nothing is left. -/
 def demoProg : Prog := fun _ _ _ => none
@@ -200,5 +242,30 @@ example : (exec demoProg demoHist 21 {}).stack = [] ∧ (exec demoProg demoHist 
 
 example : (applyCmd ({ comp := fun _ => [(0, 5)] } : St) (.removeComp 3 0)).removedBuf 0 = [3] := by
   simp [applyCmd, alookup]
+
+/-- Whole frames. Entity 0 carries component 0; it is removed by direct world access (operation 1).
+    `framed`: an entity-scoped removal reactor was registered first, the frame ends (`Last`, then `clear_trackers`): the
+    reactor has run exactly once and a second frame adds nothing.
+    `late`: nobody tracks the type; two frames pass; a removal reactor registered afterwards finds nothing to react to
+    (Bevy dropped the event at the second `clear_trackers`), whereas after a single frame it still would. -/
+def frameHist (reg : Bool) (frames : Nat) : Hist :=
+  { op := fun t _ =>
+      if t = 0 then some .acts else if t = 1 then some (.wRemove 0 0)
+      else if t < 2 + 2 * frames then (if t % 2 = 0 then some .frameEnd else some .clearTrackers)
+      else if t = 2 + 2 * frames then some .acts else if t = 3 + 2 * frames then some .frameEnd else none,
+    act := fun t i _ => match t, i with
+      | 0, 0 => some .spawn
+      | 0, 1 => some (.insert 0 0 5)
+      | 0, 2 => if reg then some (.on .persistent 0 false [.eRem 0 0]) else none
+      | t, 0 => if t ≠ 0 ∧ !reg then some (.on .persistent 0 false [.eRem 0 0]) else none
+      | _, _ => none }
+
+def bodies (s : St) : Nat := (s.trace.filter (fun e => match e with | .body _ _ _ => true | _ => false)).length
+
+example : bodies (exec demoProg (frameHist true 1) 200 {}) = 1 ∧ (exec demoProg (frameHist true 1) 200 {}).stack = [] := by decide
+example : bodies (exec demoProg (frameHist true 2) 200 {}) = 1 := by decide
+example : bodies (exec demoProg (frameHist false 1) 200 {}) = 1 := by decide
+example : bodies (exec demoProg (frameHist false 2) 200 {}) = 0 ∧ (exec demoProg (frameHist false 2) 200 {}).stack = [] ∧
+    (exec demoProg (frameHist false 2) 200 {}).topIdx = 8 := by decide
 
 end Cobweb.C08
